@@ -546,6 +546,13 @@ var universes = map[string]universe{
 	"mgmt":  {prefixes: []string{"/a", "/a/b"}, faces: []uint64{1, 2}, origins: []uint64{0, 128}, costs: []uint64{0, 5}, flags: []uint64{0, ci, cap_, ci | cap_}, mgmt: true},
 	// every way of naming the face in a command (absent / explicit 0 / explicit id from another face)
 	"mgmtface": {prefixes: []string{"/a", "/a/b"}, faces: []uint64{1, 2}, origins: []uint64{0, 128}, costs: []uint64{1}, flags: []uint64{ci, cap_}, mgmt: true, faceforms: true},
+	// one entry (plus one child) that can hold up to three routes of each of two faces (three origins): every
+	// order in which the routes can sit next to each other in the entry's route list is a distinct state (the
+	// canonical state includes the list order), explored to a fixpoint, so every removal (Unreg, FaceDown) meets
+	// every adjacency pattern of the routes it removes: first/middle/last, adjacent or separated by the other face
+	"adj": {prefixes: []string{"/a"}, faces: []uint64{1, 2}, origins: []uint64{0, 65, 128}, costs: []uint64{1}, flags: []uint64{ci}},
+	// the same with a child entry (clean-up walks several entries) and distinct costs (a survivor shows in the FIB cost)
+	"adj2": {prefixes: []string{"/a", "/a/b"}, faces: []uint64{1, 2}, origins: []uint64{0, 65, 128}, costs: []uint64{1, 5}, flags: []uint64{ci}},
 	// the full alphabet of the design
 	"full": {prefixes: []string{"/", "/a", "/a/b", "/a/b/c", "/a/x"}, faces: []uint64{1, 2}, origins: []uint64{0, 128}, costs: []uint64{1, 5}, flags: []uint64{0, ci, cap_, ci | cap_}},
 }
@@ -567,6 +574,10 @@ func main() {
 			}
 			for _, f := range fibs {
 				c = append(c, explore.Config{Name: "gap " + f, MaxDepth: 64, MaxDev: -1})
+				c = append(c, explore.Config{Name: "adj " + f, MaxDepth: 64, MaxDev: -1})
+				if th {
+					c = append(c, explore.Config{Name: "adj2 " + f, MaxDepth: 5, MaxDev: -1})
+				}
 				sd := 4
 				if th {
 					sd = 64
